@@ -15,10 +15,18 @@ The model is `Gotlcp.Model.Negotiate` instantiated with the tables and code shap
 regenerated from the Go source (`factsP st`, from `Gotlcp.Facts`); the spec
 (`Gotlcp.Spec.Negotiate`: `compatible`, `expected`, `mutualSuite`, `alpnRule`) is written
 from the documentation and mentions no fact.
+
+Tie by translation (`C01_src_*`, last section): `Config.supportedVersions`, `Config.mutualVersion`,
+`supportedVersionsFromMax`, `negotiateALPN` and `checkALPN` of BOTH stacks are translated to Lean on
+every run (`Gotlcp.Src`); `Gotlcp.Tie.Negotiate` proves them equal to the model's functions, which is
+where `factsP`'s version table and ALPN loop shape come from (`Model.Negotiate.treeVersions`,
+`treeAlpnOuterIsFirstArg` — literals, not text-matching facts), and the statements about version and
+ALPN agreement are restated, for ALL inputs, about the translated functions themselves.
 -/
 import Gotlcp.Lemmas.Negotiate
 import Gotlcp.Lemmas.NegotiateHistory
 import Gotlcp.Model.NegotiateFacts
+import Gotlcp.Tie.Negotiate
 
 set_option linter.unusedSimpArgs false
 set_option linter.unusedVariables false
@@ -31,19 +39,23 @@ open Gotlcp.Lemmas.Negotiate
 
 /-! ### the regenerated facts are the documented tables -/
 
-/-- Everything the theorems below rely on, pinned to the source of this tree: the version
-table, the preference order, the suite table with its flags, the ECDHE ids of the guards, the
+/-- Everything the theorems below rely on, pinned to the source of this tree: the preference
+order, the suite table with its flags, the ECDHE ids of the guards, the
 numeric order of the policies, `requiresClientCert`, the iteration shapes of
-`selectCipherSuite` / `pickCipherSuite` / `makeClientHello` / `negotiateALPN`, the ECDHE
+`selectCipherSuite` / `pickCipherSuite` / `makeClientHello`, the argument order at the call of
+`negotiateALPN` (server's list first), the ECDHE
 policy override, the request and verification thresholds, the repaired certificate list of
 the client (F36), the guards of `checkForResumption` (policy, version, the suite still offered
 by the client and still enabled by the configuration in use), the Clone field sets — for both
-stacks; nothing the extractor looked for is missing. -/
+stacks; nothing the extractor looked for is missing.
+NOT pinned by text-matching facts any more: the version table, the loop shape of `negotiateALPN` and
+its h2 / http/1.1 fallback literals.  `factsP` takes them from `Model.Negotiate.treeVersions` /
+`treeAlpnOuterIsFirstArg`, and `Gotlcp.Tie.Negotiate` proves the functions translated from the source
+of both stacks equal to the model with exactly these values (`C01_src_is_model` below). -/
 theorem C01_facts :
     tlcpParams = refParams ∧ dtlcpParams = refParams ∧
     Facts.tlcp.negPrefListFromOrder = true ∧ Facts.dtlcp.negPrefListFromOrder = true ∧
     Facts.tlcp.negHelloFromOrder = true ∧ Facts.dtlcp.negHelloFromOrder = true ∧
-    Facts.tlcp.negAlpnFallback = ["h2", "http/1.1"] ∧ Facts.dtlcp.negAlpnFallback = ["h2", "http/1.1"] ∧
     Facts.tlcp.negEcdheAuthOverride = true ∧ Facts.dtlcp.negEcdheAuthOverride = true ∧
     Facts.tlcp.negCertReqFromRequest = true ∧ Facts.dtlcp.negCertReqFromRequest = true ∧
     Facts.tlcp.negVerifyFromIfGiven = true ∧ Facts.dtlcp.negVerifyFromIfGiven = true ∧
@@ -401,5 +413,315 @@ example :
     compatible c s = true ∧
     failureOf (negotiate { refParams with encCertNeedsSig := false } c s) = some .certVerifyMsg ∧
     outcome (negotiate refParams c s) = some (expected c s) := by decide
+
+/-! ### the translated source (tie by translation, `Gotlcp.Tie.Negotiate`)
+
+`Gotlcp.Src.{tlcp,dtlcp}.neg.*` and `Gotlcp.Src.{tlcp,dtlcp}.supportedVersionsFromMax` are regenerated from
+the Go source on every run.  The statements below are about THOSE definitions, for all inputs: every
+list of byte strings (a Go string is its bytes; valid UTF-8 or not), every 16-bit version window,
+every peer version list. -/
+
+section src
+open Gotlcp.Tie.Negotiate
+
+/-- the translated `negotiateALPN(serverProtos, clientProtos)` of a stack -/
+def srcNegotiateALPN : Stack → List Str → List Str → Str × Option Go.Error
+  | .tlcp => Src.tlcp.neg.negotiateALPN
+  | .dtlcp => Src.dtlcp.neg.negotiateALPN
+
+/-- the translated `checkALPN(clientProtos, serverProto)` of a stack -/
+def srcCheckALPN : Stack → List Str → Str → Option Go.Error
+  | .tlcp => Src.tlcp.neg.checkALPN
+  | .dtlcp => Src.dtlcp.neg.checkALPN
+
+/-- the translated `(&Config{MinVersion: mn, MaxVersion: mx}).supportedVersions(isClient)` of a stack -/
+def srcSupportedVersions : Stack → BitVec 16 → BitVec 16 → Bool → List (BitVec 16)
+  | .tlcp, mn, mx, b => Src.tlcp.neg.Config.supportedVersions ⟨mn, mx⟩ b
+  | .dtlcp, mn, mx, b => Src.dtlcp.neg.Config.supportedVersions ⟨mn, mx⟩ b
+
+/-- the translated `(&Config{MinVersion: mn, MaxVersion: mx}).mutualVersion(isClient, peerVersions)` -/
+def srcMutualVersion : Stack → BitVec 16 → BitVec 16 → Bool → List (BitVec 16) → BitVec 16 × Bool
+  | .tlcp, mn, mx, b, peer => Src.tlcp.neg.Config.mutualVersion ⟨mn, mx⟩ b peer
+  | .dtlcp, mn, mx, b, peer => Src.dtlcp.neg.Config.mutualVersion ⟨mn, mx⟩ b peer
+
+/-- the translated `supportedVersionsFromMax(maxVersion)` of a stack -/
+def srcVersionsFromMax : Stack → BitVec 16 → List (BitVec 16)
+  | .tlcp => Src.tlcp.supportedVersionsFromMax
+  | .dtlcp => Src.dtlcp.supportedVersionsFromMax
+
+theorem srcNegotiateALPN_eq (st : Stack) (s c : List Str) : srcNegotiateALPN st s c = alpnPick s c := by
+  cases st
+  · exact negotiateALPN_eq_tlcp s c
+  · exact negotiateALPN_eq_dtlcp s c
+
+theorem srcCheckALPN_eq (st : Stack) (c : List Str) (p : Str) : srcCheckALPN st c p = checkPick c p := by
+  cases st
+  · exact checkALPN_eq_tlcp c p
+  · exact checkALPN_eq_dtlcp c p
+
+theorem srcSupportedVersions_eq (st : Stack) (mn mx : BitVec 16) (b : Bool) :
+    srcSupportedVersions st mn mx b = [0x0101#16].filter (keepVersion mn mx) := by
+  cases st
+  · exact supportedVersions_eq_tlcp ⟨mn, mx⟩ b
+  · exact supportedVersions_eq_dtlcp ⟨mn, mx⟩ b
+
+theorem srcMutualVersion_eq (st : Stack) (mn mx : BitVec 16) (b : Bool) (peer : List (BitVec 16)) :
+    srcMutualVersion st mn mx b peer = mutualPick (srcSupportedVersions st mn mx b) peer := by
+  cases st
+  · exact mutualVersion_eq_tlcp ⟨mn, mx⟩ b peer
+  · exact mutualVersion_eq_dtlcp ⟨mn, mx⟩ b peer
+
+/-- Every function the translator was asked for was translated, and the model instance of this file
+takes its version table and its ALPN loop shape from the values `Gotlcp.Tie.Negotiate` proves about the
+translated text. -/
+theorem C01_src_translated :
+    Src.untranslated = [] ∧
+    ∀ st, (factsP st).versions = treeVersions ∧ (factsP st).alpnServerFirst = true :=
+  ⟨by decide, fun st => by cases st <;> exact ⟨rfl, by decide⟩⟩
+
+/-- The translated functions of either stack ARE the model this file's theorems are about (the
+model of either stack, `st'`): `negotiateALPN`, `checkALPN` on all lists of strings (as their UTF-8
+bytes), `Config.supportedVersions`, `Config.mutualVersion`, `supportedVersionsFromMax` on all version
+windows, peer lists and ClientHello versions (as 16-bit numbers). -/
+theorem C01_src_is_model (st st' : Stack) :
+    (∀ s c : List String,
+      srcNegotiateALPN st (s.map strBytes) (c.map strBytes) = encALPN (negotiateALPN (factsP st') s c)) ∧
+    (∀ (c : List String) (p : String),
+      srcCheckALPN st (c.map strBytes) (strBytes p) = encCheck (checkALPN c p)) ∧
+    (∀ (mn mx : BitVec 16) (isClient : Bool),
+      (srcSupportedVersions st mn mx isClient).map (·.toNat) = supportedVersions (factsP st') mn.toNat mx.toNat) ∧
+    (∀ (mn mx : BitVec 16) (isClient : Bool) (peer : List (BitVec 16)),
+      srcMutualVersion st mn mx isClient peer =
+        encVersion (mutualVersion (factsP st') mn.toNat mx.toNat (peer.map (·.toNat)))) ∧
+    (∀ m : BitVec 16, (srcVersionsFromMax st m).map (·.toNat) = versionsFromMax (factsP st') m.toNat) := by
+  obtain ⟨hv, ha⟩ := C01_src_translated.2 st'
+  cases st
+  · exact ⟨tie_negotiateALPN_tlcp _ ha, tie_checkALPN_tlcp,
+      fun mn mx b => tie_supportedVersions_tlcp _ hv ⟨mn, mx⟩ b,
+      fun mn mx b peer => tie_mutualVersion_tlcp _ hv ⟨mn, mx⟩ b peer, tie_versionsFromMax_tlcp _ hv⟩
+  · exact ⟨tie_negotiateALPN_dtlcp _ ha, tie_checkALPN_dtlcp,
+      fun mn mx b => tie_supportedVersions_dtlcp _ hv ⟨mn, mx⟩ b,
+      fun mn mx b peer => tie_mutualVersion_dtlcp _ hv ⟨mn, mx⟩ b peer, tie_versionsFromMax_dtlcp _ hv⟩
+
+/-- The translated `negotiateALPN` computes the DOCUMENTED rule (the spec `alpnRule`, which mentions
+neither the model nor a fact) on every pair of protocol lists. -/
+theorem C01_src_alpn_is_rule (st : Stack) (server client : List String) :
+    srcNegotiateALPN st (server.map strBytes) (client.map strBytes) = encALPN (alpnRule server client) := by
+  rw [srcNegotiateALPN_eq, alpnPick_map]
+
+/-- AGREEMENT: whatever protocol the translated server-side `negotiateALPN` (of either stack) selects
+without error is accepted by the translated client-side `checkALPN` (of either stack) given the same
+client list — for all byte strings. -/
+theorem C01_src_alpn_agreement (st st' : Stack) (server client : List Str) (p : Str)
+    (h : srcNegotiateALPN st server client = (p, none)) : srcCheckALPN st' client p = none := by
+  rw [srcNegotiateALPN_eq] at h
+  rw [srcCheckALPN_eq]
+  unfold alpnPick at h
+  unfold checkPick
+  by_cases hp : (p == []) = true
+  · simp only [hp, if_true]
+  · have hp' : (p == []) = false := by simpa using hp
+    have hne : p ≠ [] := by simpa using hp
+    simp only [hp', Bool.false_eq_true, if_false]
+    split at h
+    · exact absurd (congrArg Prod.fst h).symm hne
+    · rename_i he
+      simp only [Bool.or_eq_true, not_or, Bool.not_eq_true] at he
+      cases hf : server.find? (fun sp => client.contains sp) with
+      | some r =>
+        rw [hf] at h
+        have hr : r = p := congrArg Prod.fst h
+        subst hr
+        have hc : client.contains r = true := List.find?_some hf
+        simp only [he.2, hc, Bool.false_eq_true, if_false, if_true]
+      | none =>
+        rw [hf] at h
+        simp only at h
+        split at h
+        · exact absurd (congrArg Prod.fst h).symm hne
+        · cases congrArg Prod.snd h
+
+/-- Nothing is negotiated, and nothing fails, when either side lists nothing. -/
+theorem C01_src_alpn_ignored (st : Stack) (server client : List Str) (h : server = [] ∨ client = []) :
+    srcNegotiateALPN st server client = ([], none) := by
+  rw [srcNegotiateALPN_eq]
+  unfold alpnPick
+  rcases h with h | h <;> subst h <;> simp
+
+/-- A selected protocol is the FIRST entry of the SERVER's list that the client listed (the server's
+order decides, not the client's), and comes without error. -/
+theorem C01_src_alpn_server_preference (st : Stack) (server client : List Str) (p : Str) (e : Option Go.Error)
+    (h : srcNegotiateALPN st server client = (p, e)) (hp : p ≠ []) :
+    e = none ∧ p ∈ client ∧
+    ∃ before after, server = before ++ p :: after ∧ ∀ x, x ∈ before → x ∉ client := by
+  rw [srcNegotiateALPN_eq] at h
+  unfold alpnPick at h
+  split at h
+  · exact absurd (congrArg Prod.fst h).symm hp
+  · cases hf : server.find? (fun sp => client.contains sp) with
+    | some r =>
+      rw [hf] at h
+      have hr : r = p := congrArg Prod.fst h
+      subst hr
+      obtain ⟨hu, before, after, hd, hb⟩ := List.find?_eq_some_iff_append.mp hf
+      refine ⟨(congrArg Prod.snd h).symm, by simpa using hu, before, after, hd, fun x hx => ?_⟩
+      have := hb x hx
+      simpa using this
+    | none =>
+      rw [hf] at h
+      simp only at h
+      split at h <;> exact absurd (congrArg Prod.fst h).symm hp
+
+/-- When the lists have a protocol in common, the negotiation succeeds with one of them. -/
+theorem C01_src_alpn_mutual_succeeds (st : Stack) (server client : List Str) (x : Str)
+    (hs : x ∈ server) (hc : x ∈ client) :
+    ∃ p, srcNegotiateALPN st server client = (p, none) ∧ p ∈ server ∧ p ∈ client := by
+  rw [srcNegotiateALPN_eq]
+  unfold alpnPick
+  have he : (server.isEmpty || client.isEmpty) = false := by
+    cases server <;> cases client <;> simp_all
+  simp only [he, Bool.false_eq_true, if_false]
+  cases hf : server.find? (fun sp => client.contains sp) with
+  | some r =>
+    exact ⟨r, rfl, List.mem_of_find?_eq_some hf, by simpa using List.find?_some hf⟩
+  | none =>
+    rw [List.find?_eq_none] at hf
+    have := hf x hs
+    simp [hc] at this
+
+/-- Without a common protocol the negotiation fails — except that a server listing "h2" lets a client
+listing "http/1.1" through with no protocol selected. -/
+theorem C01_src_alpn_disjoint (st : Stack) (server client : List Str)
+    (hs : server ≠ []) (hc : client ≠ []) (hd : ∀ x, x ∈ server → x ∉ client) :
+    srcNegotiateALPN st server client =
+      if strBytes "h2" ∈ server ∧ strBytes "http/1.1" ∈ client then ([], none)
+      else ([], some Go.Error.other) := by
+  rw [srcNegotiateALPN_eq, strBytes_h2, strBytes_http11]
+  unfold alpnPick
+  have he : (server.isEmpty || client.isEmpty) = false := by
+    cases server <;> cases client <;> simp_all
+  simp only [he, Bool.false_eq_true, if_false]
+  have hf : server.find? (fun sp => client.contains sp) = none := by
+    rw [List.find?_eq_none]
+    intro x hx
+    simpa using hd x hx
+  rw [hf]
+  simp
+
+/-- The translated `checkALPN` accepts exactly: no protocol, or a protocol the client listed; every
+refusal is an error value. -/
+theorem C01_src_checkALPN_iff (st : Stack) (client : List Str) (p : Str) :
+    (srcCheckALPN st client p = none ↔ p = [] ∨ p ∈ client) ∧
+    (srcCheckALPN st client p = none ∨ srcCheckALPN st client p = some Go.Error.other) := by
+  rw [srcCheckALPN_eq]
+  unfold checkPick
+  by_cases hp : p = []
+  · subst hp; simp
+  · have hp' : (p == []) = false := by simpa using hp
+    simp only [hp', Bool.false_eq_true, if_false, hp, false_or]
+    cases client with
+    | nil => simp
+    | cons a t =>
+      simp only [List.isEmpty_cons, Bool.false_eq_true, if_false]
+      cases hc : (a :: t).contains p with
+      | true => simp only [if_true, true_iff, true_or, and_true]; simpa using hc
+      | false =>
+        simp only [Bool.false_eq_true, if_false, or_true, and_true]
+        constructor
+        · intro h; cases h
+        · intro h
+          have : (a :: t).contains p = true := by simpa using h
+          rw [hc] at this; cases this
+
+/-- The translated `Config.supportedVersions` returns exactly the versions of the table — the single
+version 0x0101 — that lie inside the configured window (0 = no bound), whatever `isClient`. -/
+theorem C01_src_supportedVersions (st : Stack) (mn mx : BitVec 16) (isClient : Bool) (v : BitVec 16) :
+    (v ∈ srcSupportedVersions st mn mx isClient ↔
+      v = 0x0101#16 ∧ (mn = 0#16 ∨ mn ≤ v) ∧ (mx = 0#16 ∨ v ≤ mx)) ∧
+    (0x0101#16 : BitVec 16).toNat = docVersion ∧
+    srcSupportedVersions st mn mx isClient = srcSupportedVersions st mn mx (!isClient) := by
+  refine ⟨?_, rfl, by rw [srcSupportedVersions_eq, srcSupportedVersions_eq]⟩
+  rw [srcSupportedVersions_eq, List.mem_filter]
+  unfold keepVersion
+  simp only [List.mem_singleton, Bool.and_eq_true, Bool.not_eq_true', Bool.and_eq_false_iff,
+    bne_eq_false_iff_eq, decide_eq_false_iff_not, BitVec.not_lt, gt_iff_lt]
+
+/-- The translated `Config.mutualVersion` returns a version BOTH sides support, the peer's order having
+priority; it reports failure exactly when there is none, and then returns 0. -/
+theorem C01_src_mutualVersion (st : Stack) (mn mx : BitVec 16) (isClient : Bool) (peer : List (BitVec 16)) :
+    (∀ v, srcMutualVersion st mn mx isClient peer = (v, true) →
+      v ∈ srcSupportedVersions st mn mx isClient ∧
+      ∃ before after, peer = before ++ v :: after ∧
+        ∀ x, x ∈ before → x ∉ srcSupportedVersions st mn mx isClient) ∧
+    ((srcMutualVersion st mn mx isClient peer).2 = false ↔
+      ∀ x, x ∈ peer → x ∉ srcSupportedVersions st mn mx isClient) ∧
+    ((srcMutualVersion st mn mx isClient peer).2 = false → (srcMutualVersion st mn mx isClient peer).1 = 0#16) := by
+  rw [srcMutualVersion_eq]
+  unfold mutualPick
+  cases hf : peer.find? (fun pv => (srcSupportedVersions st mn mx isClient).contains pv) with
+  | some r =>
+    obtain ⟨hu, before, after, hd, hb⟩ := List.find?_eq_some_iff_append.mp hf
+    refine ⟨fun v hv => ?_, ?_, fun h => by cases h⟩
+    · have hr : r = v := congrArg Prod.fst hv
+      subst hr
+      exact ⟨by simpa using hu, before, after, hd, fun x hx => by simpa using hb x hx⟩
+    · simp only [Bool.true_eq_false, false_iff]
+      intro h
+      have h1 : r ∈ peer := List.mem_of_find?_eq_some hf
+      exact h r h1 (by simpa using hu)
+  | none =>
+    refine ⟨fun v hv => (by cases congrArg Prod.snd hv), ?_, fun _ => rfl⟩
+    simp only [true_iff]
+    rw [List.find?_eq_none] at hf
+    intro x hx
+    simpa using hf x hx
+
+/-- VERSION AGREEMENT on the translated code: a client with window `cmn..cmx` puts its first supported
+version `hv` into the ClientHello; when the server with window `smn..smx` selects `v` from
+`supportedVersionsFromMax hv`, then `v` is 0x0101, both configurations support it, and the client's
+own check of the ServerHello version (`mutualVersion(roleClient, []uint16{v})`) accepts exactly `v`. -/
+theorem C01_src_version_agreement (st : Stack) (cmn cmx smn smx hv v : BitVec 16)
+    (hc : (srcSupportedVersions st cmn cmx true).head? = some hv)
+    (hs : srcMutualVersion st smn smx false (srcVersionsFromMax st hv) = (v, true)) :
+    v = 0x0101#16 ∧ v ∈ srcSupportedVersions st cmn cmx true ∧ v ∈ srcSupportedVersions st smn smx false ∧
+    srcMutualVersion st cmn cmx true [v] = (v, true) := by
+  have hhv : hv ∈ srcSupportedVersions st cmn cmx true := List.mem_of_head? hc
+  have hhv1 : hv = 0x0101#16 := ((C01_src_supportedVersions st cmn cmx true hv).1.mp hhv).1
+  obtain ⟨hvs, _⟩ := (C01_src_mutualVersion st smn smx false _).1 v hs
+  have hv1 : v = 0x0101#16 := ((C01_src_supportedVersions st smn smx false v).1.mp hvs).1
+  have hvc : v ∈ srcSupportedVersions st cmn cmx true := by rw [hv1, ← hhv1]; exact hhv
+  refine ⟨hv1, hvc, hvs, ?_⟩
+  rw [srcMutualVersion_eq]
+  unfold mutualPick
+  simp [List.find?_cons, hvc]
+
+/-! non-vacuity: the translated code evaluated by the kernel -/
+
+/-- server preference, not client preference; the fallback; the refusal -/
+example :
+    srcNegotiateALPN .tlcp [strBytes "h2", strBytes "http/1.1"] [strBytes "http/1.1", strBytes "h2"] = (strBytes "h2", none) ∧
+    srcNegotiateALPN .dtlcp [strBytes "http/1.1", strBytes "h2"] [strBytes "h2", strBytes "http/1.1"] = (strBytes "http/1.1", none) ∧
+    srcNegotiateALPN .dtlcp [strBytes "h2"] [strBytes "http/1.1"] = ([], none) ∧
+    srcNegotiateALPN .tlcp [strBytes "http/1.1"] [strBytes "h2"] = ([], some Go.Error.other) ∧
+    srcNegotiateALPN .tlcp [strBytes "spdy"] [] = ([], none) := by decide
+
+/-- `checkALPN` accepts what was listed and refuses the rest; bytes that are not UTF-8 are strings too -/
+example :
+    srcCheckALPN .tlcp [strBytes "h2"] (strBytes "h2") = none ∧
+    srcCheckALPN .dtlcp [strBytes "h2"] (strBytes "http/1.1") = some Go.Error.other ∧
+    srcCheckALPN .tlcp [] (strBytes "h2") = some Go.Error.other ∧
+    srcCheckALPN .dtlcp [] [] = none ∧
+    srcNegotiateALPN .tlcp [[0xff#8, 0xfe#8]] [[0xc0#8], [0xff#8, 0xfe#8]] = ([0xff#8, 0xfe#8], none) := by decide
+
+/-- version windows: inside, below `MinVersion`, above `MaxVersion`; a 0x03xx ClientHello is refused -/
+example :
+    srcSupportedVersions .tlcp 0 0 true = [0x0101#16] ∧ srcSupportedVersions .dtlcp 0x0100#16 0x0101#16 false = [0x0101#16] ∧
+    srcSupportedVersions .tlcp 0x0102#16 0 true = [] ∧ srcSupportedVersions .dtlcp 0 0x0100#16 false = [] ∧
+    srcMutualVersion .tlcp 0 0 false (srcVersionsFromMax .tlcp 0x0101#16) = (0x0101#16, true) ∧
+    srcMutualVersion .dtlcp 0 0 false (srcVersionsFromMax .dtlcp 0x0303#16) = (0#16, false) ∧
+    srcMutualVersion .tlcp 0 0x0100#16 false (srcVersionsFromMax .tlcp 0x0101#16) = (0#16, false) ∧
+    srcMutualVersion .tlcp 0 0 true [0x0303#16, 0x0101#16] = (0x0101#16, true) := by decide
+
+end src
 
 end Gotlcp.Props.C01
